@@ -32,6 +32,9 @@ def run(ck):
         crng = ck.rng("case", i)
         p = imm.gen_params(crng, maxsize=maxsize if crng.random() < .9 else maxsize * 2,
                            maxn=16 if crng.random() < .3 else 8)
+        if i % 40 in (1, 2, 3, 4):
+            # the literal boundaries are always present, whatever the seed: empty file, one byte, 55 (last literal), 56
+            p["size"] = (0, 1, 55, 56)[i % 40 - 1]
         profile = crng.choice(["fifo", "per-server-fifo", "per-server-fifo", "free"])
         eager = crng.choice([0.0, 0.0, 0.02])
         g = VGrid(nservers=p["nservers"], seed=crng.getrandbits(32), profile=profile, eager_timers=eager,
@@ -52,7 +55,7 @@ def run(ck):
     ck.extra["distinct_schedules"] = len(schedules)
     ck.extra["eventual_exceptions"] = 0
     ck.require_monitor("byte-equality", "ueb-model")
-    ck.require_reach("multi-segment", "literal", "tail-padded", "k-subset-read")
+    ck.require_reach("multi-segment", "literal", "empty-file", "tail-padded", "k-subset-read")
 
 
 def one_case(ck, g, p, rng, profile, schedules):
@@ -76,6 +79,8 @@ def one_case(ck, g, p, rng, profile, schedules):
     u_ = uri.from_string(cap)
     if size <= 55:
         ck.hit("literal")
+        if size == 0:
+            ck.hit("empty-file")
         if not isinstance(u_, uri.LiteralFileURI):
             ck.violation("small-file-not-literal", "size %d gave %r" % (size, cap), desc)
     else:
